@@ -198,6 +198,7 @@ func GenHistoryFrom(t *rapid.T, cfg WorldCfg, setup []TxSpec, maxTx, maxOps int,
 		tx.LastInPreCommit = chance(t, l+"_lastInPreCommit", 8)
 		if allowSystem {
 			tx.System = chance(t, l+"_system", 45)
+			tx.SystemOutside = tx.System && chance(t, l+"_systemOutside", 40)
 			tx.DeriveSystemFirst = !tx.System && chance(t, l+"_derive", 35)
 		}
 		trial := m.Clone()
